@@ -304,6 +304,60 @@ func TestC04(t *testing.T) {
 		}
 		s.St.Exhaust("near-miss passphrases (one character, case, added space, prefix/suffix, Unicode normalisation form) of 6 passphrases", int64(n))
 	}, check)
+	// a header without any recipient stanza (no file a writer produces, but one the parser reads): whatever key its MAC is made with, nobody is a recipient
+	type noStanza struct {
+		KeyKind string  `json:"keyKind"` // empty | zero16 | random
+		IDs     []c04ID `json:"ids"`
+		Armor   bool    `json:"armor"`
+	}
+	pbt.Each(s, "foreign-exhaustive", func(yield func(noStanza)) {
+		n := 0
+		for _, kk := range []string{"empty", "zero16", "random"} {
+			for _, ids := range [][]c04ID{{{Kind: "x25519", Idx: 0}}, {{Kind: "scrypt", Pass: "pw"}}, {{Kind: "ed25519", Idx: 0}}, {{Kind: "rsa", Idx: 0}}, {{Kind: "x25519", Idx: 1}, {Kind: "scrypt", Pass: ""}, {Kind: "x25519", Idx: 2}}} {
+				yield(noStanza{KeyKind: kk, IDs: ids, Armor: n%3 == 0})
+				n++
+			}
+		}
+		s.St.Exhaust("files whose header has no recipient stanza, keyed by the empty key, a zero key or a random key, opened with identities of every type", int64(n))
+	}, func(c noStanza) error {
+		p := hx.ThePool()
+		fk := map[string][]byte{"empty": {}, "zero16": make([]byte, 16), "random": hx.PRG(7, 16)}[c.KeyKind]
+		plain := []byte("attack at dawn")
+		f := refage.Build(fk, hx.PRG(8, 16), nil, refage.CanonicalChunks(plain))
+		file := f.Bytes()
+		if c.Armor {
+			file = []byte(refage.Armor(file))
+		}
+		var ids []age.Identity
+		native := true
+		for _, i := range c.IDs {
+			switch i.Kind {
+			case "x25519":
+				ids = append(ids, p.X25519Identity(i.Idx))
+			case "scrypt":
+				if i.Pass == "" {
+					ids = append(ids, hx.RefuseIdentity{})
+					continue
+				}
+				id, _ := age.NewScryptIdentity(i.Pass)
+				ids = append(ids, id)
+			default:
+				ids = append(ids, p.Identity(hx.RecSpec{Kind: i.Kind, Idx: i.Idx}))
+				native = false
+			}
+		}
+		s.St.Case(true, stats.HashJSON(c), "no-stanza-header", "no-stanza-header:key="+c.KeyKind)
+		rd, _, derr := decryptReader(file, c.Armor, ids...)
+		if rd != nil || derr == nil {
+			got := []byte{}
+			if rd != nil {
+				got, _ = readAllPlan(rd, []int{4096})
+			}
+			return pbt.Failf("C04/foreign-identity-decrypts", "a file whose header names no recipient at all (MAC keyed by the %s key) gives identities %+v a reader (err=%v); %d bytes readable, equal to the plaintext: %v", c.KeyKind, c.IDs, derr, len(got), bytes.Equal(got, plain))
+		}
+		_ = native
+		return nil
+	})
 	// long passphrases that differ in one character (or its case) far from the start
 	pbt.Each(s, "foreign-exhaustive", func(yield func(c04Case)) {
 		n := 0
